@@ -61,7 +61,7 @@ def scopes(tier):
     """A1: (values per dim, max rows); A2: list of (values per dim, max rows, commons 'all' | 'edge');
     A3: list of (values per dim, max rows, common patterns 'all' | 'some')."""
     if tier == "thorough":
-        return dict(fact_forms=FACT_FORMS_THOROUGH, xdtypes=XDTYPES_THOROUGH, format_sets=FORMAT_SETS_THOROUGH,
+        return dict(thorough=True, fact_forms=FACT_FORMS_THOROUGH, xdtypes=XDTYPES_THOROUGH, format_sets=FORMAT_SETS_THOROUGH,
                     N0=5, A1=(3, 5), A2_inferred="edge",
                     A2=[((2, 2), 3, "all"), ((3, 3), 2, "edge"), ((2, 3), 2, "all"), ((3, 2), 2, "all")],
                     A3=[((2, 2, 2), 2, "all"), ((2, 3, 2), 2, "some")],
@@ -353,7 +353,15 @@ class Cubes:
                 return None
             cls = dict(self.cls, cube="xcube", xdtype=dt)
             CA.CASE_CLS, CA.CASE_DESC = cls, dict(self.desc, xdtype=dt)
-            arrs = [d.astype(dt) for d in self.dense]
+
+            def holding(d):
+                # the requested dtype, widened (same signedness) until it holds every category of this dimension
+                t = np.dtype(dt)
+                while d.size and int(d.max()) > np.iinfo(t).max:
+                    t = np.dtype("%s%d" % ("uint" if t.kind == "u" else "int", t.itemsize * 16))
+                return t
+
+            arrs = [d.astype(holding(d)) for d in self.dense]
             cube = _try_plain(lambda: self.M["xcube"](arrs, self.shape) if self.shape is not None else self.M["xcube"](arrs))
             MON.check("xcubes.xcube.__init__/no-raise", cube is not FAILED, "constructor raised", {"case": CA.CASE_DESC}, cls)
             if cube is not FAILED and self.shape is None:
@@ -472,6 +480,9 @@ def do_cube_A(spec, sc, st, jobno):
     if fam == "M" and N > 100:
         # the 255/256/257-row cubes: a thinned design (every factor level still occurs) keeps the quick tier quick
         fact_rows, count_rows = fact_rows[::4], count_rows[::3]
+    if fam == "M" and shape is not None and int(np.prod(shape)) > 65536 and not sc.get("thorough"):
+        # cubes of more than 65536 cells cost seconds per call on the spec side: three design rows in the quick tier
+        fact_rows, count_rows = fact_rows[::9][:2], count_rows[::5][:1]
     base = jobno * 131
     for i, (fi, wi, pi, di, ri) in enumerate(fact_rows):
         idx = base + i
@@ -550,7 +561,27 @@ def medium_specs():
         yield ("M", [np.array([1] * n + [0, 0], dtype=np.int64), np.array([0] * n + [1, 0], dtype=np.int64)], [0, 1], (2, 2), None)
 
 
+def many_cell_specs(thorough=False):
+    """Cubes with MANY cells although every extent is small: the flat cell number crosses 256 (16x17, 7x7x7, 5x5x5x5) or
+    65536 (256x257, 41x41x41) while no single extent does - whatever is sized from one extent instead of the product
+    (strides, cell-number dtypes, bin counts) shows only here.  Rows sit in the first cell, the last cell and the cells
+    numbered just below / at / above the power of two."""
+    for shape in ((16, 17), (7, 7, 7), (5, 5, 5, 5), (256, 257), (41, 41, 41), (300, 2)):
+        size = int(np.prod(shape))
+        if size > 65536 and not thorough and shape != (256, 257):
+            continue
+        numbers = sorted({0, 1, size - 1, size - 2, size // 2} | {n for n in (255, 256, 257, 65535, 65536, 65537) if n < size})
+        coords = [np.unravel_index(n, shape) for n in numbers]
+        rows = coords + coords[-2:] + coords[:1]  # some cells hold two rows
+        dense = [np.array([int(c[d]) for c in rows], dtype=np.int64) for d in range(len(shape))]
+        yield ("M", dense, [0] * len(shape), tuple(shape), None)
+        if size <= 65536 or thorough:
+            yield ("M", dense, [int(e) - 1 for e in shape], tuple(shape), None)
+
+
 def jobs(sc):
+    for spec in many_cell_specs(sc.get("thorough", False)):
+        yield do_cube_A, spec
     for spec in cube_specs(sc):
         yield do_cube_A, spec
     for spec in medium_specs():
